@@ -36,6 +36,8 @@ def config_csv(repo, variant):
     elif variant == "fields_420":
         d.update(picture_coding_mode="pictures_are_fields", color_diff_format_index="color_4_2_0", frame_width="8",
                  frame_height="8", clean_width="8", clean_height="8", source_sampling="interlaced", picture_bytes="48")
+    elif variant == "custom_qm":
+        d.update(quantization_matrix="3 2 2 1")
     elif variant == "lossless_asym":
         d.update(lossless="TRUE", wavelet_index_ho="le_gall_5_3", dwt_depth_ho="1", quantization_matrix="0 0 0 0 0")
         d.pop("picture_bytes", None)
@@ -97,7 +99,8 @@ def run(ctx):
         "shuffled order, each under a random PYTHONHASHSEED, recording each command's write set; (C) the commands run "
         "concurrently (16 processes) in another shuffled order; trees compared byte for byte; write sets checked pairwise "
         "path-disjoint; evaluations = worker command executions + serial runs; distinct non-trivial = distinct commands that wrote >= 1 file")
-    variants = ctx.pick(["minimal"], ["minimal", "ld_fragments", "fields_420", "lossless_asym"])
+    # custom_qm first: a configuration with a non-default option exposes shared-object mutation between generators
+    variants = ctx.pick(["custom_qm"], ["custom_qm", "minimal", "ld_fragments", "fields_420", "lossless_asym"])
     work = os.path.join(ctx.workdir, "gen")
     shutil.rmtree(work, ignore_errors=True)
     os.makedirs(work)
